@@ -542,6 +542,36 @@ def start_state(world, mask, loaded):
     return True
 
 
+def big_song_note_references(res, rng):
+    """A song with more than 256 modules whose notes address the late ones; its header says it was written by a current SunVox
+    but is BASED ON an older one (a legacy song opened and saved again): after save/load every note still resolves to the module
+    at the position it named."""
+    import rv.api as api
+    for based_on in ((1, 9, 4, 0), (1, 7, 0, 0), (1, 9, 5, 0), (2, 1, 2, 1)):
+        p = api.Project()
+        for i in range(300):
+            p.new_module(api.m.Amplifier, name=f"a{i}")
+        pat = api.Pattern(tracks=2, lines=4)
+        p.attach_pattern(pat)
+        picks = [299, 255, 256, 300, 43, 1, 257, 128]
+        for k, pos in enumerate(picks):
+            pat.data[k % 4][k // 4].mod = p.modules[pos]
+        p.based_on_version = based_on
+        case = {"family": "big-song-note-references", "based_on_version": list(based_on), "sunvox_version": list(p.sunvox_version)}
+        res.count("big_song_note_reference_cases")
+        try:
+            q = api.read_sunvox_file(BytesIO(p.read()))
+            got = [q.patterns[0].data[k % 4][k // 4].mod for k in range(len(picks))]
+        except Exception as e:
+            res.violation(f"C14:note-mod-raises:{type(e).__name__}", f"song with 300 modules based on {based_on}: {e!r}", case)
+            continue
+        for pos, g in zip(picks, got):
+            if g is not q.modules[pos]:
+                res.violation("C14:note-mod:after-load", f"song written by {p.sunvox_version} based on {based_on}: the note that named position {pos} resolves to "
+                                                         f"{None if g is None else g.index} after save/load", case)
+                break
+
+
 def run_shard(spec_, res):
     if spec_.get("part") == "soak":
         from .. import soak
@@ -571,6 +601,8 @@ def run_shard(spec_, res):
     if spec_["tier"] == "thorough" and spec_["shard"] == 0:
         from ._repo_suite import ambient_under_repo_tests
         ambient_under_repo_tests(res, PROPERTY, ["index_coherent"])
+    if spec_["shard"] == 0:
+        big_song_note_references(res, rng)
     # several threads: some load files (also old-version ones), others attach to their own gapped projects and write note
     # images with 16-bit module numbers - switching at I/O calls (rvmon.sched)
     if spec_["shard"] % 2 == 1:
